@@ -14,14 +14,18 @@ import (
 )
 
 func init() {
-	h.Register(&h.Prop{ID: "C17", Gen: genC17, Exec: withPrim(map[string]h.ExecFn{
+	m := withPrim(map[string]h.ExecFn{
 		"shard.parents":       exShardParents,
 		"shard.reencode":      exShardReencode,
 		"shard.match_account": exShardMatchAccount,
 		"shard.match_block":   exShardMatchBlock,
 		"go.shard.algebra":    goShardAlgebra,
 		"go.shard.prefix":     goShardPrefix,
-	})})
+	})
+	for k, v := range addrExec {
+		m[k] = v
+	}
+	h.Register(&h.Prop{ID: "C17", Gen: func(g *h.G) { genC17(g); genC17Addr(g) }, Exec: m})
 }
 
 func u64(s string) uint64 {
